@@ -116,3 +116,16 @@ Definition attr_ns_eqb (a b : attr_ns) : bool :=
   | ANS_None, ANS_None | ANS_Svg, ANS_Svg | ANS_Xlink, ANS_Xlink | ANS_Xml, ANS_Xml | ANS_Foreign, ANS_Foreign => true
   | _, _ => false
   end.
+
+(* how svgtree::parse looks up the XML attributes / elements it treats specially *)
+Inductive special_attr := SA_Style | SA_Id | SA_Class.
+(* LK_NoNamespace: roxmltree lookup by a plain string = attribute / element WITHOUT a namespace (for elements: any
+   namespace is accepted by has_tag_name(&str) - that is LK_LocalNameOnly); LK_SvgNamespace: (SVG_NS, name) *)
+Inductive lookup_kind := LK_NoNamespace | LK_LocalNameOnly | LK_SvgNamespace.
+Definition lookup_kind_eqb (a b : lookup_kind) : bool :=
+  match a, b with
+  | LK_NoNamespace, LK_NoNamespace | LK_LocalNameOnly, LK_LocalNameOnly | LK_SvgNamespace, LK_SvgNamespace => true
+  | _, _ => false
+  end.
+(* simplecss::Element for XmlNode: the facts positional selectors rest on *)
+Inductive css_fact := CF_ParentElement | CF_PrevSiblingElement | CF_FirstChildViaPrevSibling | CF_AttrMatchNoNamespace.
